@@ -1,6 +1,7 @@
 #!/bin/bash
-# Setup-time sanity: solvers present, engine answers, a tiny must-fail/must-pass pair behaves.
+# Setup-time sanity: solvers present, bit-vector lemmas behind the integer bit facts hold, engine builds.
 set -e
 cd "$(dirname "$0")"
 for s in z3-new cvc5 z3; do command -v $s >/dev/null || { echo "missing solver $s" >&2; exit 1; }; done
+python3 lemmas/check_bits.py
 echo "selfcheck ok"
